@@ -679,6 +679,8 @@ impl Mon {
             cm.max_pto_ns = cm.max_pto_ns.max(post.pto_data.as_nanos() as u64).max(pre.probe.pto_data.as_nanos() as u64);
             if cm.awaiting_close_tx {
                 cm.awaiting_close_tx = false;
+                // what the closer hears from now on it hears after its first announcement
+                cm.frames_rx_at_close = Some(frame_rx_total(&conn.c.stats().frame_rx));
                 self.cnt.inc("c08.immediacy_checks");
                 if self.lane == Lane::Null {
                     let has_close = decoded.iter().flatten().any(|d| d.iter().any(|p| p.has_close()));
